@@ -73,6 +73,7 @@ package yubiagent
 //@ ghost func reads() int = calls(yubiagent.read) - old(calls(yubiagent.read))
 //@ ghost func responses() int = (calls(yubiagent.write) - old(calls(yubiagent.write))) + (calls(agent.ServeAgent) - old(calls(agent.ServeAgent)))
 
+//@ ghost func servesShim(a YubiAgent) bool = typeof(a) == *server && typeof(a.(*server).ShimAgent) == *shimagent.Server
 //@ func ServeAgent(agent, c)
 //@   requires agent != nil && c != nil
 //@   requires typeof(agent) == *server ==> (pl(agent) != 0 &&
@@ -84,7 +85,17 @@ package yubiagent
 //@   ensures [never-more-responses-than-requests] responses() <= reads()
 //@   ensures [responses-go-to-the-peer] forall(i, old(calls(yubiagent.write)) <= i && i < calls(yubiagent.write), arg(yubiagent.write, i, 0) == c)
 //@   ensures [reads-come-from-the-peer] forall(i, old(calls(yubiagent.read)) <= i && i < calls(yubiagent.read), arg(yubiagent.read, i, 0) == c)
+//@   ensures [every-request-code-is-announced-before-it-is-served] servesShim(agent) ==> (calls(Server.Broadcast) - old(calls(Server.Broadcast)) >= responses() &&
+//@     forall(k, old(calls(Server.Broadcast)) <= k && k < calls(Server.Broadcast),
+//@       arg(Server.Broadcast, k, 0) == agent.(*server).ShimAgent.(*shimagent.Server) &&
+//@       arg(Server.Broadcast, k, 1) == at(retc(yubiagent.read, k + (old(calls(yubiagent.read)) - old(calls(Server.Broadcast))), 0),
+//@         off(ret(yubiagent.read, k + (old(calls(yubiagent.read)) - old(calls(Server.Broadcast))), 0)), 0)))
 //@   loop 1:
+//@     invariant servesShim(agent) ==> (calls(Server.Broadcast) - old(calls(Server.Broadcast)) == reads() &&
+//@       forall(k, old(calls(Server.Broadcast)) <= k && k < calls(Server.Broadcast),
+//@         arg(Server.Broadcast, k, 0) == agent.(*server).ShimAgent.(*shimagent.Server) &&
+//@         arg(Server.Broadcast, k, 1) == at(retc(yubiagent.read, k + (old(calls(yubiagent.read)) - old(calls(Server.Broadcast))), 0),
+//@           off(ret(yubiagent.read, k + (old(calls(yubiagent.read)) - old(calls(Server.Broadcast))), 0)), 0)))
 //@     invariant reads() >= 0 && responses() == reads()
 //@     invariant (typeof(agent) == *server && typeof(agent.(*server).ShimAgent) == *shimagent.Server) ==> shimagent.condsOK(agent.(*server).ShimAgent.(*shimagent.Server))
 //@     invariant calls(yubiagent.write) >= old(calls(yubiagent.write)) && calls(agent.ServeAgent) >= old(calls(agent.ServeAgent))
